@@ -64,7 +64,8 @@ def processAddressClaim (c : Ca) (sa : Nat) (data : List Nat) : Ca × List Frame
     let mine := Name.value c.name
     if mine == contender then (c, [])
     else if mine > contender then
-      if c.name.arbitrary_address_capable == 0 then
+      -- single-address CA, or no address left to try (repair of D28: 254 is the null address)
+      if c.name.arbitrary_address_capable == 0 || c.announced ≥ 253 then
         ({ c with state := CANNOT_CLAIM, addr := none }, [claimFrame c Const.Addr.NULL])
       else
         let c1 := { c with addr := some Const.Addr.NULL, announced := c.announced + 1, state := WAIT_VETO }
